@@ -33,10 +33,15 @@ structure Variant where
   the loop with a mutable retry option, `Req.RetryDyn`, can tell the difference: with a fixed
   policy `Do`'s up-front refusal covers every such call). -/
   loopRefuse : Bool
+  /-- The per-attempt clean-up (`dumpBuffer.Reset()`, a fresh trace, `resp.body/result/error = nil`)
+  comes AFTER the wait for the retry interval, as in the code (true), or before it (false: the
+  ordering of seed C10-r4-1, never in /repo) — it matters when the wait ends through the context:
+  `do` then returns the response it is holding. -/
+  wipeAfterWait : Bool
 deriving DecidableEq, Repr
 
-def Variant.repaired : Variant := ⟨true, true, true, true, true, true⟩
-def Variant.asFound : Variant := ⟨false, false, false, false, false, false⟩
+def Variant.repaired : Variant := ⟨true, true, true, true, true, true, true⟩
+def Variant.asFound : Variant := ⟨false, false, false, false, false, false, true⟩
 /-- Shorthand used by the lemma and theorem files. -/
 abbrev R : Variant := Variant.repaired
 
